@@ -345,6 +345,7 @@ def run_build(mos, files, n, workdir, listing=True):
     d = tempfile.mkdtemp(prefix="c11_", dir=workdir)
     try:
         for name, text in files.items():
+            os.makedirs(os.path.dirname(os.path.join(d, name)), exist_ok=True)
             with open(os.path.join(d, name), "w", encoding="utf-8", newline="") as f:
                 f.write(text)
         with open(os.path.join(d, "mos.toml"), "w") as f:
@@ -363,7 +364,7 @@ def run_build(mos, files, n, workdir, listing=True):
         shutil.rmtree(d, ignore_errors=True)
 
 
-def check_build(chk, mos, probe, case, n, workdir, dist):
+def check_build(chk, mos, probe, model, case, n, workdir, dist):
     rc, out, produced = run_build(mos, case.files, n, workdir)
     impl = probe.call({"files": case.files, "pc": 0x2000, "move_macro": True, "ns": [n]})
     replay = {"files": case.files, "n": n, "end_to_end": True}
@@ -371,6 +372,15 @@ def check_build(chk, mos, probe, case, n, workdir, dist):
         if (rc != 0) != (not impl.get("ok")):
             chk.tie_break("correspondence:build", "`mos build` and the probe disagree on success: rc=%s %s" % (rc, out[-200:]), replay)
         return
+    # the class of the known finding, decided by the Coq predicate Known_listing_name_collision on (directory, stem)
+    dirs, stems = {}, {}
+    paths = []
+    for f in impl["files"]:
+        d, base = os.path.split(f["name"])
+        stem = os.path.splitext(base)[0]
+        paths.append([dirs.setdefault(d, len(dirs)), stems.setdefault(stem, len(stems))])
+    kl = model.call({"cmd": "lstnames", "paths": paths})
+    klass = "Known_listing_name_collision" if kl.get("collision") else None
     for f in impl["files"]:
         stem = os.path.splitext(os.path.basename(f["name"]))[0]
         got = produced.get(stem + ".lst")
@@ -378,7 +388,7 @@ def check_build(chk, mos, probe, case, n, workdir, dist):
         chk.count(1, 1)
         dist["lst_files"] += 1
         if got is None or got.decode("utf-8", "replace") != want:
-            chk.oracle_failure(None, "%s.lst written by `mos build` is not the listing of %s" % (stem, f["name"]),
+            chk.oracle_failure(klass, "%s.lst written by `mos build` is not the listing of %s" % (stem, f["name"]),
                                dict(replay, got=None if got is None else got.decode("utf-8", "replace"), want=want))
 
 
@@ -408,7 +418,7 @@ def run(chk):
             "lst_files": 0, "with_macros": 0, "with_imports": 0, "with_loops": 0}
     for case in load_corpus():
         check_case(chk, probe, model, case, [False, True], ALL_NS, rng, dist)
-        check_build(chk, mos, probe, case, 8, workdir, dist)
+        check_build(chk, mos, probe, model, case, 8, workdir, dist)
     seen = set()
     for i in range(nprog):
         g, labels = c11gen.build(rng)
@@ -425,7 +435,7 @@ def run(chk):
         ns = ALL_NS if i % 4 == 0 else sorted(set([rng.randrange(1, 4), rng.randrange(4, 9), rng.randrange(9, 17)]))
         check_case(chk, probe, model, case, [False, True], ns, rng, dist)
         if i < nbuild:
-            check_build(chk, mos, probe, case, rng.choice(ALL_NS), workdir, dist)
+            check_build(chk, mos, probe, model, case, rng.choice(ALL_NS), workdir, dist)
     probe.stop()
     model.stop()
     chk.cov["rule"] = ("seeded random programs built from an AST whose emissions the generator knows without an assembler "
